@@ -261,7 +261,8 @@ def evaluate(case, native):
     if 'panic' in native:
         return True, 'the real code panicked: ' + native['panic'][-300:]
     if kind == 'fold_order':
-        totals = [r + a for r, a in zip(case['route_estimates'], case['activity_estimates'])]
+        multi_ = set(case.get('multi_jobs') or [])
+        totals = [r + (2 * a if i in multi_ else a) for i, (r, a) in enumerate(zip(case['route_estimates'], case['activity_estimates']))]
         if case.get('pair_costs'):
             totals = [c for row in case['pair_costs'] for c in row]
         best = float(min(totals))
